@@ -1000,11 +1000,19 @@ func runTransport(c Case) kit.Outcome {
 		return up[i]
 	}
 	stop := func(i int) {
-		servers[i].Close()
-		net.SeverServerSide(addrs[i], nil)
-		select {
-		case <-lisDone[i]:
-		case <-time.After(5 * time.Second):
+		// repeated: a Close that precedes the Server's own record of its listener closes nothing
+		for tries := 0; tries < 50; tries++ {
+			servers[i].Close()
+			net.SeverServerSide(addrs[i], nil)
+			stopped := false
+			select {
+			case <-lisDone[i]:
+				stopped = true
+			case <-time.After(100 * time.Millisecond):
+			}
+			if stopped {
+				break
+			}
 		}
 		up[i] = false
 	}
